@@ -506,10 +506,11 @@ def run(ctx, prop):
 
     # ---- 4. the abstract protocol: traces of the real cluster through the extracted acceptor (coq/RaftAbs) ----
     abs_cov = None
-    if not ctx.replay and (fails or mism):
-        # a verdict exists already (direct oracle / correspondence); traces of a broken implementation can make the
-        # directed acceptor scenarios wait for states that never come, so the acceptor is not run on top of it
-        abs_cov = dict(skipped="violations were already found by the direct oracles / the correspondence runs")
+    if not ctx.replay and fails:
+        # failing inputs exist already; traces of a broken implementation can make the directed acceptor scenarios wait
+        # for states that never come, so the acceptor is not run on top of them. (With only a broken correspondence it IS
+        # run, under the alarm: its directed scenarios are the best source of a concrete failing schedule.)
+        abs_cov = dict(skipped="failing schedules were already found by the direct oracles")
     elif not ctx.replay:
         acc_limit = left(240) if quick else left(600)
         old_handler = signal.signal(signal.SIGALRM, _alarm)
@@ -518,6 +519,10 @@ def run(ctx, prop):
             import _raftabs
             n_tr, n_steps, rejected = _raftabs.run_acceptor(ctx, ctx.tier)
             signal.alarm(0)
+            # the directed scenarios of harness/cmd/raftabs also run under the direct oracle: their violations are
+            # concrete failing inputs (replayable scenario files) of this property
+            if hasattr(_raftabs, "scenario_failures"):
+                fails += _raftabs.scenario_failures(prop)
             abs_cov = dict(traces=n_tr, abstract_steps=n_steps, rejected=len(rejected))
             for k in ("labels", "skipped", "skipped_events", "single_config_traces", "overlap_ok_traces", "accepted_traces"):
                 if k in _raftabs.LAST:
